@@ -2,7 +2,7 @@ package c17
 
 import "verif/harness/mc"
 
-var allValues = []string{"-5", "-0.5", "0", "3", "1e15", "abc", errLabel}
+var allValues = []string{"-5", "-0.5", "0", "3", "1e15", "abc", objLabel, errLabel}
 
 func variants() []Variant {
 	var vs []Variant
@@ -13,7 +13,7 @@ func variants() []Variant {
 			DepthQ: 5, DepthT: 7})
 	}
 	// history trimming and latest_history edits: one provider, a value per block pair
-	vs = append(vs, Variant{Name: "history", Timeout: 1, Values: []string{"3", "-5", "0"},
+	vs = append(vs, Variant{Name: "history", Timeout: 1, Values: []string{"3", "-5", "0", objLabel},
 		Feeds:    []FeedSpec{{Name: "f1", Creator: "C", Agg: "avg", Hist: 2, Thr: 1, Providers: []string{"P1"}, Started: true}},
 		EditHist: []int{1, 2, 3}, PauseStart: true,
 		DepthQ: 8, DepthT: 10})
